@@ -445,8 +445,24 @@ def run(ck):
     cmpn = [n for n in gp.nodes if n.kind == 'test' and 'time.time()' in norm(n.ast)]
     ok = len(cmpn) == 1
     if ok:
-        t = norm(cmpn[0].ast)
-        ok = 'ts + exp < time.time()' in t or 'time.time() > ts + exp' in t or 'time.time() - ts > exp' in t
+        # unit typing of the comparison: U = unix time, D = duration
+        def utype(e):
+            t_ = norm(e)
+            if t_ == 'time.time()' or t_ == 'ts':
+                return 'U'
+            if t_ == 'exp':
+                return 'D'
+            if isinstance(e, ast.BinOp) and isinstance(e.op, (ast.Add, ast.Sub)):
+                l_, r_ = utype(e.left), utype(e.right)
+                if isinstance(e.op, ast.Add):
+                    return {('U', 'D'): 'U', ('D', 'U'): 'U', ('D', 'D'): 'D'}.get((l_, r_))
+                return {('U', 'U'): 'D', ('U', 'D'): 'U', ('D', 'D'): 'D'}.get((l_, r_))
+            return None
+        comps = [x for x in ast.walk(cmpn[0].ast) if isinstance(x, ast.Compare) and
+                 'time.time()' in norm(x) and len(x.ops) == 1]
+        ok = len(comps) == 1 and utype(comps[0].left) is not None and \
+            utype(comps[0].left) == utype(comps[0].comparators[0]) and \
+            {'ts', 'exp', 'time.time()'} <= {norm(x) for x in ast.walk(comps[0])}
         tsd = ck.rdefs(ifp.fid, 'M1').value_exprs(cmpn[0], 'ts')
         ok = ok and all(not isinstance(v, str) and norm(v) == 'self.circuit.persistent_ts' for v in tsd) and bool(tsd)
     ck.ob(R6, f"{ifp.fid} :: expiration test", ok,
@@ -476,6 +492,31 @@ def run(ck):
           if bad is None and exp_le and exp_old else
           "an expired state (or expiration <= 0) can be restored", ifp, rst[0].ast,
           witness=path_witness(gp, bad))
+    # the expiry decision itself, on a grid that covers the sign of `expiration` and every
+    # ordering of (stop time + expiration) against the current time
+    from sa.minieval import MiniEval
+    badc = []
+    ncase = 0
+    for exp_, ts_, now_ in [(e_, t_, n_) for e_ in (None, -5, 0, 0.0, 5) for t_ in (None, 100)
+                            for n_ in (90, 104, 105, 106, 200)]:
+            if True:
+                calls = []
+                env = {'self.expiration': exp_, 'self.circuit.persistent_ts': ts_, 'time.time()': now_,
+                       'self.circuit.persistent_dict[self.key]': 'STATE',
+                       'self.circuit.persistent_dict': 'STORAGE',
+                       'self._restore_state': lambda st_, calls=calls: calls.append(st_)}
+                out = MiniEval(R7, env).run(ifp.node.body)
+                ncase += 1
+                ck.abstract_cases += 1
+                want = exp_ is None or (exp_ > 0 and (ts_ is None or not ts_ + exp_ < now_))
+                if out[0] != 'return' or (calls == ['STATE']) != want or len(calls) > 1:
+                    badc.append(f"expiration={exp_!r}, stop time={ts_!r}, now={now_}: "
+                                f"{'restored' if calls else 'not restored'} ({out[0]}), must be "
+                                f"{'restored' if want else 'discarded'}")
+    ck.ob(R7, f"{ifp.fid} :: expiry decision", not badc,
+          f"evaluated on {ncase} (expiration, stop time, now) cases: the saved state is restored iff "
+          f"expiration is None, or positive and stop time + expiration >= now (or no time stamp)"
+          if not badc else "; ".join(badc[:4]), ifp, rst[0].ast)
     c = node_calls(rst[0], '_restore_state')[0]
     vals = ck.rdefs(ifp.fid, 'M1').value_exprs(rst[0], norm(c.args[0])) if c.args else []
     ok = bool(vals) and all(not isinstance(v, str) and isinstance(v, ast.Subscript) and _is_storage(v.value)
